@@ -58,6 +58,9 @@ func NewArgon2IDHasher(params *Argon2IDParams) (*Argon2IDHasher, error) {
 	if params.Threads < 1 {
 		return nil, fmt.Errorf("Argon2id parameter-set has invalid threads %d, must be >= 1", params.Threads)
 	}
+	if params.Length < 1 {
+		return nil, fmt.Errorf("Argon2id parameter-set has invalid length %d, must be >= 1", params.Length)
+	}
 	return &Argon2IDHasher{Argon2IDParams: *params}, nil
 }
 
